@@ -311,9 +311,16 @@ fn c19_one(ctx: &Ctx, t: &St, order: u64) {
                     ctx.violation("pseudocode-missing-name", format!("rendering {:?} does not mention {:?}", text, n), order, case());
                 }
             }
+            // Display is a rendering entry point of its own: same requirements, no equality demanded
             match trap(|| owned.to_string()) {
-                Ok(d) if d == text => {}
-                other => ctx.violation("display-differs", format!("Display gave {:?}", other), order, case()),
+                Err(p) => ctx.violation("display-panic", format!("Display panicked: {p}"), order, case()),
+                Ok(d) => {
+                    for n in names_of(t) {
+                        if !d.contains(&n) {
+                            ctx.violation("display-missing-name", format!("Display rendering {:?} does not mention {:?}", d, n), order, case());
+                        }
+                    }
+                }
             }
         }
     }
